@@ -67,6 +67,16 @@ func genDepositHist(r *Rng, i int, tier string) []string {
 			add("blk 1000")
 		}
 	}
+	// nobody can report a bridge-withdrawal query, tipped first or not
+	if r.Chance(1, 2) {
+		w := 1 + r.Intn(3)
+		if r.Chance(2, 3) {
+			add("tip a1 wdq%d %d", w, r.Range(1000, 1000000))
+			add("blk 1000")
+		}
+		add("rep v0 wdq%d %064x", w, r.Range(1, 1e9))
+		add("blk 1000")
+	}
 	add("blk 1000")
 	add("skip 2001 1000")
 	add("blk 1000")
@@ -135,6 +145,14 @@ func runDepositHist(t *testing.T, in []string) string {
 			}
 		}
 		for i, p := range pend {
+			// a report on a bridge-withdrawal query (tipped before or not): accepted or rejected
+			if p.kind == "rep" && strings.HasPrefix(p.info["q"], "wdq") && off+i < len(br.Txs) {
+				res := "rej"
+				if br.Txs[off+i].Code == 0 {
+					res = "ok"
+				}
+				hh.Out = append(hh.Out, fmt.Sprintf("WR q=%s res=%s", p.info["q"], res))
+			}
 			if p.kind != "claimdep" || off+i >= len(br.Txs) {
 				continue
 			}
